@@ -14,7 +14,7 @@ ID = "C03"
 LEVEL = "exploration"
 RULE = (
     "Hypothesis draws a finite 2-D sample of 50-50000 points (a: drawn from a generated 2-D hierarchical model by the harness' inverse "
-    "Rosenblatt transform; b: arbitrary clouds - cluster mixtures, heavy tails, integer lattices with many ties, nearly collinear), alpha "
+    "Rosenblatt transform; b: arbitrary clouds - cluster mixtures, heavy tails, integer lattices with many ties - as floats and with their integer dtype -, nearly collinear), alpha "
     "log-uniform in [1e-4, 0.3] and deg_step among all divisors of 360 in [1, 60] plus 0.5, 1.5, 2.5, 7.5, 22.5; or no sample with alpha >= 1e-3. "
     "Oracle from coordinates and sample only: exactly 360/deg_step vertices; there is one rotation sense and phase such that every edge "
     "(cyclic, incl. the closing edge) lies on the line with outward normal at phase + k*deg_step whose offset lies between the order statistics "
@@ -45,6 +45,9 @@ def make_sample(case):
         return np.c_[rng.pareto(1.5, n) + 1, rng.lognormal(0, 2.0, n)]
     if kind == "lattice":
         return np.c_[rng.integers(0, 6, n), rng.integers(0, 4, n)].astype(float)
+    if kind == "lattice_int":
+        # binned / count data handed over with its integer dtype (seeded change C03e: quantile buffer of the sample's dtype)
+        return np.c_[rng.integers(0, 40, n), rng.integers(-7, 25, n)]
     if kind == "thin":
         t = rng.standard_normal(n)
         return np.c_[t, 2 * t + 1e-3 * rng.standard_normal(n)]
@@ -160,7 +163,7 @@ def check_ds(case, ctx):
 @st.composite
 def strat_ds(draw, tier):
     big = 50000 if tier == "thorough" else 12000
-    kind = draw(st.sampled_from(["model", "model", "clusters", "heavy", "lattice", "thin", "nosample"]))
+    kind = draw(st.sampled_from(["model", "model", "clusters", "heavy", "lattice", "lattice_int", "thin", "nosample"]))
     case = dict(kind=kind, seed=draw(st.integers(0, 2**31 - 1)), deg_step=draw(st.sampled_from(DEG_STEPS)))
     if kind in ("model", "nosample"):
         case["model"] = draw(models.model_spec(n_dims=(2,), allow_scipy=False))
